@@ -135,7 +135,12 @@ bool  readable(const void *p, size_t n);         // p..p+n lies inside one live 
 bool  in_arena(const void *p);
 void  mark_shared_ro_all();                      // every live block becomes shared read-only (C17 setup -> tasks)
 void  clear_shared_ro_all();
+uint64_t digest_shared();                        // content digest of every shared read-only block
+uint64_t steps_now();                            // simulated time
 size_t live_lib_blocks();
+// reports a "leak" violation (with the allocating functions) if library blocks are still live; call when every
+// library object of the run has been destroyed
+void check_leaks(const char *world);
 void   set_block_owner_task(void *p, int task); // pre-assign a block to a task (its output stream)
 // number of library blocks currently live that were allocated after 'mark' (serial), for leak attribution
 uint32_t heap_serial();
